@@ -41,7 +41,7 @@ CLAIMS = {
                  "network.py are called with the dtype/rank they declare; virtual "
                  "self-calls of inherited Network methods are accepted by every "
                  "override. Needs e.g. a degree>=4 non-clique neighbourhood to show "
-                 "in a test; holds for all graphs once shown on the source. Also: pair-count normalisers keep both factors in the denominator (no `x / N * (N - 1)`)."),
+                 "in a test; holds for all graphs once shown on the source. Also: pair-count normalisers keep both factors in the denominator (no `x / N * (N - 1)`); the clique kernels may enumerate ordered tuples or each subset once (then with the r! factor and a correct `previous + 1` chain of loop starts); the direction convention A[i,j] = link i->j holds in every in/out-degree method (axis 0 / axis 1) and behind a direction=\"in\"/\"out\" parameter folded to either constant (M7)."),
         "note": ("Does NOT decide that any measure equals its definition "
                  "(igraph/scipy/spectral measures are out of reach)."),
         "technique": "loop-nest guard-set extraction over the Cython parse tree, kernel-boundary type inference, override-signature check",
@@ -107,9 +107,15 @@ CLAIMS = {
     "C10": {
         "text": ("Applicability only: kernel-boundary typing for all estimators, "
                  "no float-constant array index, literal option values accepted by "
-                 "the callee's validation, consistent running-absmax idiom."),
+                 "the callee's validation, consistent running-absmax idiom. Also: "
+                 "the C estimators address their 2-D inputs row-major with the row "
+                 "length of the shape the caller hands over (A5, re-using C20's "
+                 "affine pointer analysis: a transposed hand-over with swapped "
+                 "extents stays in bounds but reads the wrong elements); a name "
+                 "bound inside a loop to a list/array built before the loop is not "
+                 "changed in place (A6: per-iteration work objects are fresh)."),
         "note": "Does NOT decide numerical equality with reference statistics.",
-        "technique": "kernel-boundary type inference, option-flow and idiom-consistency rules over ast",
+        "technique": "kernel-boundary type inference, option-flow and idiom-consistency rules over ast; affine access-polynomial vs shape layout check over the clang AST",
     },
     "C11": {
         "text": ("Structural clauses: compiled kernels and their _sparse "
@@ -126,7 +132,11 @@ CLAIMS = {
                  "symmetry by construction); every value reaching arccos passes "
                  "both clamps; latitude is row 0 / longitude row 1 at every "
                  "accessor, weight and window site; memoised distance matrices are "
-                 "never edited in place."),
+                 "never edited in place. Also: a scalar accumulated over the "
+                 "remaining axis starts afresh for every pair (reset at the depth "
+                 "of the pair loops); area-weighted connectivity measures take the "
+                 "node areas from the grid's cosine of latitude, never from the "
+                 "configurable n.s.i. node weights."),
         "note": "Does NOT decide error bounds, the triangle inequality or nearest-node minimality.",
         "technique": "store/loop-domain pattern rules over the Cython parse tree, table agreement, alias/mutation analysis",
     },
